@@ -746,6 +746,17 @@ class BinaryOp(Expr):
                 raise OverflowError
             return result
 
+        def trunc_div(a, b):
+            # QBASIC's \ truncates the quotient toward zero
+            q = abs(a) // abs(b)
+            return -q if (a < 0) != (b < 0) else q
+
+        def trunc_mod(a, b):
+            # ... and MOD is the remainder of that division (the
+            # sign of the dividend)
+            r = abs(a) % abs(b)
+            return -r if a < 0 else r
+
         result = {
             Operator.CMP_EQ: lambda a, b: qbool(a == b),
             Operator.CMP_NE: lambda a, b: qbool(a != b),
@@ -762,8 +773,8 @@ class BinaryOp(Expr):
             Operator.SUB: lambda a, b: limit(a - b),
             Operator.MUL: lambda a, b: limit(a * b),
             Operator.DIV: lambda a, b: limit(a / b),
-            Operator.MOD: lambda a, b: limit(a % b),
-            Operator.INTDIV: lambda a, b: limit(a // b),
+            Operator.MOD: lambda a, b: limit(trunc_mod(a, b)),
+            Operator.INTDIV: lambda a, b: limit(trunc_div(a, b)),
             Operator.EXP: lambda a, b: limit(a ** b),
         }[self.op](left, right)
 
